@@ -211,39 +211,43 @@ func init() {
 		return Val{T: x.errIs(a[0].T, a[1].T), Typ: boolT}, true
 	})
 	reg("errors.As", func(x *Exec, fr *Frame, st *State, cc *ssa.CallCommon, a []Val) (Val, bool) {
-		// errors.As(err, &target): on success target holds a non-nil value
-		// found in err's chain (of target's type); object invariants of
-		// that type hold for it.
-		b := x.freshVal(st, "as_ok", boolT)
-		if a[1].Dyn != nil && a[1].Dyn.Loc != nil {
-			l := a[1].Dyn.Loc
-			T := l.Elem
-			if T == nil && l.Kind == LCell {
-				T = l.Cell.typ
-			}
-			if T != nil {
-				old := x.load(st, l, T)
-				nv := x.freshVal(st, "as_target", T)
-				switch T.Underlying().(type) {
-				case *types.Pointer:
-					st.assume(Implies(b.T, Not(Eq(nv.T, IntLit(0)))))
-					x.knownRef(st, nv.T)
-					if pt, ok := T.(*types.Pointer); ok {
-						if n, ok := pt.Elem().(*types.Named); ok && n.Obj().Pkg() != nil {
-							env := &Env{x: x, st: st, vars: map[string]Val{"self": nv}, pkg: n.Obj().Pkg()}
-							for _, c := range x.cs.ObjInvs[n.Obj().Pkg().Path()+"."+n.Obj().Name()] {
-								st.assume(Implies(b.T, x.evalBool(env, c.Expr)))
-							}
-						}
-					}
-				case *types.Interface:
-					st.assume(Implies(b.T, Not(Eq(nv.T, NilIface))))
-				}
-				st.assume(Implies(Eq(a[0].T, NilIface), Not(b.T)))
-				x.store(st, l, Val{T: Ite(b.T, nv.T, old.T), Typ: T})
-			}
+		// errors.As(err, &target): target := errAs_T(err) when that is
+		// non-zero (errAs_T is a deterministic selector of err's chain);
+		// object invariants of T hold for the value found.
+		if a[1].Dyn == nil || a[1].Dyn.Loc == nil {
+			return x.freshVal(st, "as_ok", boolT), true
 		}
-		return b, true
+		l := a[1].Dyn.Loc
+		T := l.Elem
+		if T == nil && l.Kind == LCell {
+			T = l.Cell.typ
+		}
+		if T == nil {
+			return x.freshVal(st, "as_ok", boolT), true
+		}
+		found := x.errAsTerm(st, a[0], T)
+		old := x.load(st, l, T)
+		var ok Term
+		switch T.Underlying().(type) {
+		case *types.Pointer:
+			ok = Not(Eq(found.T, IntLit(0)))
+			x.knownRef(st, found.T)
+			if pt, isPtr := T.(*types.Pointer); isPtr {
+				if n, isNamed := pt.Elem().(*types.Named); isNamed && n.Obj().Pkg() != nil {
+					env := &Env{x: x, st: st, vars: map[string]Val{"self": found}, pkg: n.Obj().Pkg()}
+					for _, c := range x.cs.ObjInvs[n.Obj().Pkg().Path()+"."+n.Obj().Name()] {
+						st.assume(Implies(ok, x.evalBool(env, c.Expr)))
+					}
+				}
+			}
+		case *types.Interface:
+			ok = Not(Eq(found.T, NilIface))
+		default:
+			return x.freshVal(st, "as_ok", boolT), true
+		}
+		x.store(st, l, Val{T: Ite(ok, found.T, old.T), Typ: T})
+		x.funcsUsed["lib:errors.As (target := errAs_T(err), a deterministic selector of the error chain; nil error selects nothing)"] = true
+		return Val{T: ok, Typ: boolT}, true
 	})
 	reg("errors.New", func(x *Exec, fr *Frame, st *State, cc *ssa.CallCommon, a []Val) (Val, bool) {
 		r := x.freshVal(st, "err", errT)
